@@ -3,6 +3,7 @@
 //! Used by the engines of C01, C02, C03 (and as a program source by C05).
 
 pub mod ast;
+pub mod dbgwrite;
 pub mod exec;
 pub mod families;
 pub mod judge;
